@@ -1,4 +1,5 @@
 import HexVerif.Lemmas.XcmpMainV1
+import HexVerif.Lemmas.XcmpPeep
 /-!
   Whole-program theorem for the class V1: the procedure context of `main` built from the
   compiler's output, the decidable check `v1Check`, and `v1_correct`.
@@ -19,12 +20,12 @@ def v1Loc (cg : CGOut) (env : Env) (sp S : Nat) (n : String) : Option Nat :=
     else none
   | .error _ => none
 
-def v1K (cg : CGOut) (ds : List Dir) (img : Image) (xc : X.Ctx) (consts : List (Int × String)) (nlocals jExit : Nat) : PCtx :=
-  { env := envOf ds img, out := cg, ctx := mainCtx cg, xc := xc, ρ := fun _ => none,
+def v1K (cg : CGOut) (env : Env) (xc : X.Ctx) (consts : List (Int × String)) (nlocals jExit : Nat) : PCtx :=
+  { env := env, out := cg, ctx := mainCtx cg, xc := xc, ρ := fun _ => none,
     sp := (spValue cg.globalsOffset).toNat - (frameOf cg 0).size,
-    loc := v1Loc cg (envOf ds img) ((spValue cg.globalsOffset).toNat - (frameOf cg 0).size) (frameOf cg 0).size,
+    loc := v1Loc cg env ((spValue cg.globalsOffset).toNat - (frameOf cg 0).size) (frameOf cg 0).size,
     consts := consts, nlocals := nlocals,
-    link := BitVec.ofNat 32 ((envOf ds img).addr jExit) }
+    link := BitVec.ofNat 32 (env.addr jExit) }
 
 theorem find?_mem : ∀ (t : SymTab) (k : SymKey) (s : Symbol), t.find? k = some s → (k, s) ∈ t := by
   intro t
@@ -186,6 +187,10 @@ def constDataOk (env : Env) (vl : Int × String) : Bool :=
 
 def dummyXc : X.Ctx := { genv := [], impure := [], limit := 0 }
 
+/-- The environment the stage-2/3 triples are run in: the LOWERED list, every directive at the
+    address its image has in the layout of the OPTIMISED list (`fakeEnv`, Lemmas/XcmpPeep.lean). -/
+def v1Env (st : Stages) (img : Image) : Env := fakeEnv (envOf st.optimised img) st.lowered (peepSt st.lowered)
+
 open V1Pos in
 /-- Everything `v1_correct` needs of one compilation, with the body code and final generator
     state given. -/
@@ -195,16 +200,18 @@ def v1CheckWith (P : X.Program) (m : X.Proc) (st : Stages) (img : Image) (code :
   let S := (frameOf cg 0).size
   let spvI := spValue cg.globalsOffset
   let body := lowerCode cg code
-  let K := v1K cg ds img dummyXc gs2.constMap m.locals.length (iStub cg.data + 3)
-  decide (st.optimised = ds) &&
+  let env := v1Env st img
+  let K := v1K cg env dummyXc gs2.constMap m.locals.length (iStub cg.data + 3)
+  decide (st.optimised = peephole ds) &&
   decide (ds = v1Program spvI cg.data S (frameOf cg 0).exitLabel body) &&
-  parsedOkB ds && decide (ds.length < 2 ^ 26) && decide (img.bytes.length ≤ 4 * memWords) && Separated ds &&
+  parsedOkB st.optimised && decide (st.optimised.length < 2 ^ 26) && decide (img.bytes.length ≤ 4 * memWords) &&
+  Separated st.optimised &&
   decide (gs2.size ≤ S) &&
   wfsCheck K (iEpi cg.data S body) (cg.tbl.map fun e => e.1.2) &&
   decide (0 ≤ spvI) && decide (S ≤ spvI.toNat) && decide (spvI.toNat + 2 < memWords) && decide (2 ≤ spvI.toNat) &&
   decide (img.bytes.length / 4 ≤ spvI.toNat) &&
-  decide ((envOf ds img).addr 1 = 4) && decide ((envOf ds img).addr (iStub cg.data + 3) < 2 ^ 32) &&
-  gs2.constMap.all (constDataOk (envOf ds img)) &&
+  decide (env.addr 1 = 4) && decide (env.addr (iStub cg.data + 3) < 2 ^ 32) &&
+  gs2.constMap.all (constDataOk env) &&
   (m.locals.map X.Decl.name ++ P.globals.map X.Decl.name).all (fun n => (K.loc n).isSome)
 
 /-- The generator state at the start of the body of `main` in a V1 program: one label per global
@@ -220,79 +227,75 @@ def v1Check (P : X.Program) (m : X.Proc) (st : Stages) (img : Image) : Bool :=
 
 /-! ### The whole-program theorem -/
 
-theorem wfsCheck_xc (cg : CGOut) (ds : List Dir) (img : Image) (xc xc' : X.Ctx) (consts : List (Int × String))
+theorem wfsCheck_xc (cg : CGOut) (env : Env) (xc xc' : X.Ctx) (consts : List (Int × String))
     (nl j exitJ : Nat) (names : List String) :
-    wfsCheck (v1K cg ds img xc consts nl j) exitJ names = wfsCheck (v1K cg ds img xc' consts nl j) exitJ names := rfl
+    wfsCheck (v1K cg env xc consts nl j) exitJ names = wfsCheck (v1K cg env xc' consts nl j) exitJ names := rfl
 
 open V1Pos in
+/-- The `IAm` run of a V1 program, in any environment whose boot memory holds the DATA words. -/
 theorem v1_core (P : X.Program) (m : X.Proc) (inp : X.Input) (fuel : Nat) (β : X.Behaviour)
-    (cg : CGOut) (ds : List Dir) (img : Image) (gs1 : GS) (code : Code) (gs2 : GS)
+    (cg : CGOut) (env : Env) (mem0 : Mem) (gs1 : GS) (code : Code) (gs2 : GS)
     (hv : isV1 P = true) (hm : P.procs = [m]) (hrun : X.run P inp fuel = .defined β)
-    (g : Good ds img)
+    (hdata : ∀ j v, env.ds[j]? = some (.data v) → env.addr j % 4 = 0 ∧
+      mem0.read (env.addr j / 4) = BitVec.ofInt 32 v ∧ env.isCode (env.addr j / 4) = false)
+    (hlabel : ∀ j k l, env.ds[j]? = some (.label k l) → env.addr (j + 1) = env.addr j)
     (hgen : genStmt (mainCtx cg) (optStmt (annotS (fun _ => none) m.body)) gs1 = .ok (code, gs2))
     (hnl : m.locals.length ≤ gs1.offset)
-    (hshape : ds = v1Program (spValue cg.globalsOffset) cg.data (frameOf cg 0).size (frameOf cg 0).exitLabel (lowerCode cg code))
+    (hshape : env.ds = v1Program (spValue cg.globalsOffset) cg.data (frameOf cg 0).size (frameOf cg 0).exitLabel (lowerCode cg code))
     (hsz : gs2.size ≤ (frameOf cg 0).size)
-    (hwfs : wfsCheck (v1K cg ds img dummyXc gs2.constMap m.locals.length (iStub cg.data + 3))
+    (hwfs : wfsCheck (v1K cg env dummyXc gs2.constMap m.locals.length (iStub cg.data + 3))
               (iEpi cg.data (frameOf cg 0).size (lowerCode cg code)) (cg.tbl.map fun e => e.1.2) = true)
     (h0 : 0 ≤ spValue cg.globalsOffset) (hS : (frameOf cg 0).size ≤ (spValue cg.globalsOffset).toNat)
     (hlt : (spValue cg.globalsOffset).toNat + 2 < memWords) (h2 : 2 ≤ (spValue cg.globalsOffset).toNat)
-    (hbeyond : img.bytes.length / 4 ≤ (spValue cg.globalsOffset).toNat)
-    (ha1 : (envOf ds img).addr 1 = 4) (hlink : (envOf ds img).addr (iStub cg.data + 3) < 2 ^ 32)
-    (hcd : ∀ vl ∈ gs2.constMap, constDataOk (envOf ds img) vl = true)
+    (hcs : env.isCode (spValue cg.globalsOffset).toNat = false)
+    (hcs2 : env.isCode ((spValue cg.globalsOffset).toNat + 2) = false)
+    (ha1 : env.addr 1 = 4) (hlink : env.addr (iStub cg.data + 3) < 2 ^ 32)
+    (hcd : ∀ vl ∈ gs2.constMap, constDataOk env vl = true)
     (hlocs : ∀ n ∈ m.locals.map X.Decl.name ++ P.globals.map X.Decl.name,
-      ((v1K cg ds img dummyXc gs2.constMap m.locals.length (iStub cg.data + 3)).loc n).isSome = true) :
-    ∃ n code j s' io, Isa.run n (Am.boot img) (Isa.IOSt.init inp.stdin inp.files) = .exited code j s' io ∧
+      ((v1K cg env dummyXc gs2.constMap m.locals.length (iStub cg.data + 3)).loc n).isSome = true) :
+    ∃ c io code, Steps env (cfg 0 0 0 mem0) (Isa.IOSt.init inp.stdin inp.files) c io ∧ Exit env c io code ∧
       code = β.exit ∧ io.log.reverse = β.events ∧ inp.stdin.length - io.stdin.length = β.stdinConsumed := by
-  have F := facts_of_good ds img g
   obtain ⟨f, hfuel, hexec⟩ := run_v1 P m inp fuel β hv hm hrun
   -- the procedure context
-  have hx := wfsCheck_xc cg ds img (v1Ctx P m fuel) dummyXc gs2.constMap m.locals.length (iStub cg.data + 3)
+  have hx := wfsCheck_xc cg env (v1Ctx P m fuel) dummyXc gs2.constMap m.locals.length (iStub cg.data + 3)
     (iEpi cg.data (frameOf cg 0).size (lowerCode cg code)) (cg.tbl.map fun e => e.1.2)
   have hy := Eq.trans hx hwfs
-  have hnames : ∀ n a, (v1K cg ds img (v1Ctx P m fuel) gs2.constMap m.locals.length (iStub cg.data + 3)).loc n = some a →
+  have hnames : ∀ n a, (v1K cg env (v1Ctx P m fuel) gs2.constMap m.locals.length (iStub cg.data + 3)).loc n = some a →
       n ∈ cg.tbl.map (fun e => e.1.2) := by
     intro n a h
     exact v1Loc_names cg _ _ _ n a h
   have wf0 := wfsCheck_sound _ _ _ hnames hy
-  obtain ⟨K, hK⟩ : ∃ K : PCtx, K = v1K cg ds img (v1Ctx P m fuel) gs2.constMap m.locals.length (iStub cg.data + 3) :=
+  obtain ⟨K, hK⟩ : ∃ K : PCtx, K = v1K cg env (v1Ctx P m fuel) gs2.constMap m.locals.length (iStub cg.data + 3) :=
     ⟨_, rfl⟩
   have wf : K.WFS (iEpi cg.data (frameOf cg 0).size (lowerCode cg code)) := by rw [hK]; exact wf0
   have hKS : K.S = (frameOf cg 0).size := by rw [hK]; rfl
   have hKsp : K.sp = (spValue cg.globalsOffset).toNat - (frameOf cg 0).size := by rw [hK]; rfl
-  have hKenv : K.env = envOf ds img := by rw [hK]; rfl
+  have hKenv : K.env = env := by rw [hK]; rfl
   have hKxc : K.xc = v1Ctx P m fuel := by rw [hK]; rfl
   have hKρ : ∀ n, K.ρ n = none := by intro n; rw [hK]; rfl
-  have hKlink : K.link = BitVec.ofNat 32 ((envOf ds img).addr (iStub cg.data + 3)) := by rw [hK]; rfl
+  have hKlink : K.link = BitVec.ofNat 32 (env.addr (iStub cg.data + 3)) := by rw [hK]; rfl
   have hKlow : K.low code = lowerCode cg code := by rw [hK]; rfl
   have hKnl : K.nlocals = m.locals.length := by rw [hK]; rfl
   have hKconsts : K.consts = gs2.constMap := by rw [hK]; rfl
   have hgen' : genStmt K.ctx (optStmt (annotS K.ρ m.body)) gs1 = .ok (code, gs2) := by rw [hK]; exact hgen
   have hlocs' : ∀ n ∈ m.locals.map X.Decl.name ++ P.globals.map X.Decl.name, (K.loc n).isSome = true := by
     rw [hK]; exact hlocs
-  have hpos : V1Pos (envOf ds img).ds (spValue cg.globalsOffset) cg.data (frameOf cg 0).size
+  have hpos : V1Pos env.ds (spValue cg.globalsOffset) cg.data (frameOf cg 0).size
       (frameOf cg 0).exitLabel (lowerCode cg code) := ⟨hshape⟩
-  have hnd0 : (labelNames (envOf ds img).ds).Nodup := by have := wf.nodup; rw [hKenv] at this; exact this
+  have hnd : (labelNames env.ds).Nodup := by have := wf.nodup; rw [hKenv] at this; exact this
   -- the boot memory
-  have hd1 : ds[1]? = some (.data (spValue cg.globalsOffset)) := by
-    have := hpos.at_head.get 1 _ rfl
-    simpa [envOf] using this
-  obtain ⟨_, _, hm1, hc1⟩ := boot_data ds img g F 1 _ hd1
+  have hd1 : env.ds[1]? = some (.data (spValue cg.globalsOffset)) := hpos.at_head.get 1 _ rfl
+  obtain ⟨_, hm1, hc1⟩ := hdata 1 _ hd1
   rw [ha1] at hm1 hc1
-  have hm1' : (Am.boot img).mem.read 1 = BitVec.ofNat 32 (spValue cg.globalsOffset).toNat := by
+  have hm1' : mem0.read 1 = BitVec.ofNat 32 (spValue cg.globalsOffset).toNat := by
     have h41 : 4 / 4 = 1 := rfl
     rw [h41] at hm1
     rw [hm1, ← W_ofNat, Int.toNat_of_nonneg h0]
-  have hc1' : (envOf ds img).isCode 1 = false := hc1
-  have hcs : (envOf ds img).isCode (spValue cg.globalsOffset).toNat = false :=
-    isCode_beyond ds img F F.len4 _ hbeyond
-  have hcs2 : (envOf ds img).isCode ((spValue cg.globalsOffset).toNat + 2) = false :=
-    isCode_beyond ds img F F.len4 _ (by omega)
+  have hc1' : env.isCode 1 = false := hc1
   obtain ⟨a', memP, hstart, hP1, hPlink, hPrest⟩ :=
-    v1_startup (envOf ds img) _ _ _ _ _ hpos hnd0 (Am.boot img).mem (spValue cg.globalsOffset).toNat
+    v1_startup env _ _ _ _ _ hpos hnd mem0 (spValue cg.globalsOffset).toNat
       (Isa.IOSt.init inp.stdin inp.files) hm1' (by omega) hcs h2 hc1' hS
   -- the initial representation
-  have hnd : (labelNames ds).Nodup := by have := wf.nodup; rw [hKenv] at this; exact this
   have rep : Rep K (v1Start P m inp) memP := by
     refine ⟨by rw [hKsp]; exact hP1, fun n w h => by rw [hKρ] at h; simp at h, ?_, ?_, ?_, ?_⟩
     · intro n w _ h
@@ -302,20 +305,18 @@ theorem v1_core (P : X.Program) (m : X.Proc) (inp : X.Input) (fuel : Nat) (β : 
       obtain ⟨j', k', hd', _, hlt'⟩ := wf.const_lbl v l hmem
       rw [hKconsts] at hmem
       rw [hKenv] at hd hd' hlt' ⊢
-      have hj := labelIdx_of_nodup ds j k l hnd hd
-      have hj' := labelIdx_of_nodup ds j' k' l hnd hd'
+      have hj := labelIdx_of_nodup env.ds j k l hnd hd
+      have hj' := labelIdx_of_nodup env.ds j' k' l hnd hd'
       have hjj : j' = j := by rw [hj] at hj'; exact (Option.some.inj hj').symm
       subst hjj
       have hc := hcd (v, l) hmem
       unfold constDataOk at hc
       simp only at hc
-      rw [show (envOf ds img).ds = ds from rfl, hj] at hc
+      rw [hj] at hc
       simp only [Bool.and_eq_true, decide_eq_true_eq] at hc
       obtain ⟨hdat, hge⟩ := hc
-      obtain ⟨_, _, hval, _⟩ := boot_data ds img g F (j' + 1) v hdat
-      have haddr : (envOf ds img).addr (j' + 1) = (envOf ds img).addr j' :=
-        label_facts ds img.resolved.lens img.resolved.vals 0 j' k l hd
-      rw [haddr] at hval
+      obtain ⟨_, hval, _⟩ := hdata (j' + 1) v hdat
+      rw [hlabel j' k l hd] at hval
       rw [hKsp] at hlt'
       rw [hPrest _ (by omega) (by omega)]
       exact hval
@@ -340,27 +341,22 @@ theorem v1_core (P : X.Program) (m : X.Proc) (inp : X.Input) (fuel : Nat) (β : 
   rw [hKlow, hiEpi, hKxc] at hout
   have hio : (v1Start P m inp).io = Isa.IOSt.init inp.stdin inp.files := rfl
   rw [hio] at hout
-  have hboot : bootCfg img = cfg 0 0 0 (Am.boot img).mem := rfl
   rcases hexec with ⟨s, hex, hβ1, hβ2, hβ3⟩ | ⟨xcode, s, hex, hβ1, hβ2, hβ3⟩
   · rw [hex] at hout
     obtain ⟨a2, b2, mem2, hsteps, rep2⟩ := hout
     rw [hKenv] at hsteps
-    obtain ⟨c, hfin, hexit⟩ := v1_finish (envOf ds img) _ _ _ _ _ hpos a2 b2 mem2 K.sp
+    obtain ⟨c, hfin, hexit⟩ := v1_finish env _ _ _ _ _ hpos a2 b2 mem2 K.sp
       (spValue cg.globalsOffset).toNat s.io (by rw [hKsp]; omega) rep2.sp
       (by have := rep2.link
           rw [hKS, hKsp, show (spValue cg.globalsOffset).toNat - (frameOf cg 0).size + (frameOf cg 0).size
             = (spValue cg.globalsOffset).toNat from by omega, hKlink] at this
           exact this)
       hlt hcs2 h2 hc1' hlink
-    obtain ⟨n, j, s', hr⟩ := IAm_refines_Isa g _ c s.io 0
-      (by rw [hboot]; exact (hstart.trans hsteps).trans hfin) hexit
-    exact ⟨n, 0, j, s', s.io, hr, hβ1.symm, hβ2.symm, hβ3.symm⟩
+    exact ⟨c, s.io, 0, (hstart.trans hsteps).trans hfin, hexit, hβ1.symm, hβ2.symm, hβ3.symm⟩
   · rw [hex] at hout
     obtain ⟨c, hsteps, hexit⟩ := hout
     rw [hKenv] at hsteps hexit
-    obtain ⟨n, j, s', hr⟩ := IAm_refines_Isa g _ c s.io xcode
-      (by rw [hboot]; exact hstart.trans hsteps) hexit
-    exact ⟨n, xcode, j, s', s.io, hr, hβ1.symm, hβ2.symm, hβ3.symm⟩
+    exact ⟨c, s.io, xcode, hstart.trans hsteps, hexit, hβ1.symm, hβ2.symm, hβ3.symm⟩
 
 theorem assembleDirs_ok (ds : List Dir) (img : Image) (h : assembleDirs ds = .ok img) :
     assemble (ds.map fun d => (d, (⟨0, 0⟩ : Loc))) = .ok (some img) := by
@@ -388,11 +384,30 @@ theorem v1_correct (P : X.Program) (m : X.Proc) (st : Stages) (img : Image) (inp
     unfold v1CheckWith at hchk
     simp only [Bool.and_eq_true, decide_eq_true_eq, List.all_eq_true] at hchk
     obtain ⟨⟨⟨⟨⟨⟨⟨⟨⟨⟨⟨⟨⟨⟨⟨⟨c1, c2⟩, c3⟩, c4⟩, c5⟩, c6⟩, c7⟩, c8⟩, c9⟩, c10⟩, c11⟩, c12⟩, c13⟩, c14⟩, c15⟩, c16⟩, c17⟩ := hchk
-    rw [c1] at hasm
-    have g : Good st.lowered img :=
+    have g : Good st.optimised img :=
       ⟨parsedOkB_sound _ c3, c4, assembleDirs_ok _ _ hasm, c5, c6⟩
-    exact v1_core P m inp fuel β st.cg st.lowered img (v1Gs P m) code gs2 hv hm hrun g hgen (Nat.le_refl _)
-      c2 c7 c8 c9 c10 c11 c12 c13 c14 c15 c16 c17
+    have F := facts_of_good st.optimised img g
+    have hp : Peep st.lowered st.optimised (peepSt st.lowered) := by rw [c1]; exact peephole_peep _
+    have hbeyond : ∀ w, img.bytes.length / 4 ≤ w → (v1Env st img).isCode w = false :=
+      fun w hw => isCode_beyond st.optimised img F F.len4 w hw
+    obtain ⟨c, io, code', hsteps, hexit, e1, e2, e3⟩ :=
+      v1_core P m inp fuel β st.cg (v1Env st img) (Am.boot img).mem (v1Gs P m) code gs2 hv hm hrun
+        (fun j v hd => by
+          have := boot_data st.optimised img g F _ v (data_get hp j v hd)
+          exact ⟨this.1, this.2.2.1, this.2.2.2⟩)
+        (fun j k l hd => by
+          obtain ⟨hd', hphi⟩ := label_get hp j k l hd
+          show (envOf st.optimised img).addr (phi (peepSt st.lowered) (j + 1)) = (envOf st.optimised img).addr (phi (peepSt st.lowered) j)
+          rw [hphi]
+          exact label_facts st.optimised img.resolved.lens img.resolved.vals 0 _ k l hd')
+        hgen (Nat.le_refl _) c2 c7 c8 c9 c10 c11 c12 (hbeyond _ c13) (hbeyond _ (by omega)) c14 c15 c16 c17
+    have hnd : (labelNames st.lowered).Nodup := by
+      unfold wfsCheck at c8
+      simp only [Bool.and_eq_true, decide_eq_true_eq] at c8
+      exact c8.1.1.1.1.1.1.1.1.1
+    obtain ⟨c', hsteps', hexit'⟩ := peep_run (env' := envOf st.optimised img) hp hnd _ _ c io code' hsteps hexit
+    obtain ⟨n, j, s', hr⟩ := IAm_refines_Isa g _ c' io code' hsteps' hexit'
+    exact ⟨n, code', j, s', io, hr, e1, e2, e3⟩
 
 /-- **The class V1 with its side conditions, as one decidable predicate of the source program**:
     one procedure `main` without formals, only `var` declarations, a body of the stage-3 fragment,
